@@ -1,23 +1,1450 @@
-"""C14 -- generated message and object codecs match the protocol descriptions."""
+"""C14 -- generated message and object codecs match the protocol descriptions (translation validation)."""
+import json
+import os
+import uuid as _uuid
+
 from .common import standard_totality
+from .. import extract
 from ..facts import AnchorLost, path_matches
 from ..ir import IR, show, walk, strip_sites
 
-LEVEL = "other"
+LEVEL = "translation_validation"
 EXPLANATION = (
-    "R4 (decode never panics): every panic site reachable from any decode*/from_i32 function of the four generated protocol "
-    "crates, gamenet-common and gamenet-snap follows from its dominating guards (e.g. `read_raw(2)?` then s[0], s[1] uses the "
-    "length summary of read_raw) or is a reviewed line.  R1-R3 (description conformance) are evaluated by sa/rules/C14 against "
-    "the JSON descriptions in gamenet/generate/spec."
+    "Translation validation of the compiled codecs against the JSON descriptions, read from MIR; no codec is executed.  The "
+    "checker has its own reading of every member kind of the descriptions as a wire signature (primitive read + acceptance "
+    "constraint) and compares it with the signature recovered from the compiled decode / decode_inner / encode functions; it "
+    "shares no code with gamenet/generate.  R0 (constraint helpers): the Ok value of in_range / at_least / positive / to_bool / "
+    "sanitize is produced exactly under the comparisons their names promise.  R1 (decode layout): for every message and snapshot "
+    "object of the four descriptions, the struct returned by its decoder has one field per described member, in order, each read "
+    "by the primitive and constrained by the bounds / enum / flag the description gives, the reads happen in member order (each "
+    "read dominates the next), finish() is called before the value is returned.  R1e (encode layout): the encoder writes the same "
+    "fields in the same order with the inverse primitive and asserts the described constraint of every constrained member.  R2 "
+    "(tables): id constants equal the described ids, decode_msg / decode_obj / decode_connless dispatch every described id to its "
+    "own decoder and nothing else, msg_id / obj_type_id / connless_id return it, obj_size is the number of 32-bit words of the "
+    "description, enums' from_i32 / to_i32 map exactly the described values, flag and constant values agree.  R3 (id packing): "
+    "decode_id splits the first integer into (id >> 1, id & 1) and reads 16 raw bytes for id 0, encode_id writes ((id << 1) | "
+    "system) then the UUID: evaluated with the bit-provenance engine, decode(encode(id, flag)) = (id, flag) for all ids below "
+    "2^30, which covers every described id.  R4 (decode never panics): every panic site reachable from any decode*/from_i32 "
+    "function of the four generated protocol crates, gamenet-common and gamenet-snap follows from its dominating guards or is a "
+    "reviewed line.  Not decided: byte-level behaviour of the varint/string primitives themselves (C08), and warnings."
 )
-ASSUMPTIONS = ['std / arrayvec / zerocopy functions outside the precondition table of sa/panics.py do not panic', 'caller-supplied callbacks (Warn, Callback, Read) do not panic', 'reviewed table lines (sa/rules/tables/*.py) were confirmed by reading the code; SUSPECT lines are not trusted', 'allocation failure, stack exhaustion and inputs above 2 GiB are out of scope']
+ASSUMPTIONS = ['std / arrayvec / zerocopy functions outside the precondition table of sa/panics.py do not panic', 'caller-supplied callbacks (Warn, Callback, Read) do not panic', 'reviewed table lines (sa/rules/tables/*.py) were confirmed by reading the code; SUSPECT lines are not trusted', 'allocation failure, stack exhaustion and inputs above 2 GiB are out of scope',
+               "the wire meaning of each member kind of the descriptions is the table KIND_SIGNATURES in sa/rules/C14.py, written from the protocol documentation in doc/ and the field names of the descriptions",
+               "the primitives Unpacker::read_* / Packer::write_* implement the wire encodings their names say (decided separately under C08)"]
 TABLES = ["net","snapshot","datafile","map","demo","teehistorian","buffer","common","huffman","packer","gamenet","looptable","postfix"]
+
+SPECS = [
+    ("teeworlds-0.5", "libtw2_gamenet_teeworlds_0_5"),
+    ("teeworlds-0.6", "libtw2_gamenet_teeworlds_0_6"),
+    ("teeworlds-0.7-trunk", "libtw2_gamenet_teeworlds_0_7"),
+    ("ddnet-19.6", "libtw2_gamenet_ddnet"),
+]
+PK = "libtw2_packer::"
+SNAP = "libtw2_gamenet_snap::"
+GC = "libtw2_gamenet_common::"
+KEYWORDS = {"self": "self_", "type": "type_"}
+# messages whose struct is the hand-written one of gamenet/snap, re-exported by the generated crates
+SNAP_STRUCTS = {"snap": "Snap", "snap_empty": "SnapEmpty", "snap_single": "SnapSingle"}
+
+INT_ANY = ("int", None, None)
+
+
+def title(n):
+    return "".join(p.title() for p in n)
+
+
+def snake(n):
+    n = tuple(n)
+    if len(n) == 1 and n[0] in KEYWORDS:
+        return KEYWORDS[n[0]]
+    return "_".join(n)
+
+
+def caps(n):
+    return "_".join(p.upper() for p in n)
+
+
+# ---------------------------------------------------------------------------------------------------------
+# the checker's reading of the descriptions
+def kind_signature(t, msg):
+    """wire signature of one member type of a description"""
+    k = t["kind"]
+    if k == "int32":
+        lo, hi = t.get("min"), t.get("max")
+        return ("int", lo, hi)
+    if k == "flags":
+        return INT_ANY
+    if k == "boolean":
+        return ("bool",)
+    if k == "enum":
+        return ("enum", title(t["enum"]))
+    if k == "tune_param":
+        return ("newtype", "TuneParam", INT_ANY)
+    if k == "tick":
+        return ("newtype", "Tick", INT_ANY)
+    if k == "string":
+        return ("string", bool(t["disallow_cc"]))
+    if k == "int32_string":
+        return ("int_string",)
+    if k == "data":
+        if t.get("size") != "specified_before":
+            raise AnchorLost("description: data member with size %r" % (t.get("size"),))
+        return ("data",)
+    if k == "rest":
+        return ("rest",)
+    if k == "uuid":
+        return ("raw", 16, "Uuid")
+    if k == "sha256":
+        return ("raw", 32, "Sha256")
+    if k == "be_uint16":
+        return ("be16",)
+    if k == "uint8":
+        return ("u8",)
+    if k == "optional":
+        return ("opt", kind_signature(t["inner"], msg))
+    if k == "array":
+        return ("array", t["count"], kind_signature(t["member_type"], msg))
+    if k == "int32_twstring":
+        return ("array", t["count"], INT_ANY)
+    if k == "snapshot_object":
+        return ("obj", title(t["name"]))
+    if k == "packed_addresses":
+        return ("addrs",)
+    if k == "serverinfo_client":
+        return ("clients",)
+    raise AnchorLost("description: unknown member kind %r" % k)
+
+
+def sig_words(s):
+    """number of 32-bit words a snapshot-object member occupies"""
+    if s[0] in ("int", "bool", "enum"):
+        return 1
+    if s[0] == "newtype":
+        return sig_words(s[2])
+    if s[0] == "array":
+        return s[1] * sig_words(s[2])
+    raise AnchorLost("description: member %r inside a snapshot object" % (s,))
+
+
+def sig_str(s):
+    if s is None:
+        return "?"
+    k = s[0]
+    if k == "int":
+        if s[1] is None and s[2] is None:
+            return "int"
+        return "int[%s..%s]" % ("" if s[1] is None else s[1], "" if s[2] is None else s[2])
+    if k == "newtype":
+        return "%s(%s)" % (s[1], sig_str(s[2]))
+    if k == "opt":
+        return "optional(%s)" % sig_str(s[1])
+    if k == "array":
+        return "[%s; %d]" % (sig_str(s[2]), s[1])
+    if k == "string":
+        return "string" + ("(no control characters)" if s[1] else "")
+    if k == "unknown":
+        return "unrecognised: " + s[1]
+    return k + ("(" + ", ".join(str(x) for x in s[1:]) + ")" if len(s) > 1 else "")
+
+
+# ---------------------------------------------------------------------------------------------------------
+# signatures recovered from the compiled decoders
+def cint(e):
+    while isinstance(e, tuple) and e and e[0] in ("cast",) and e[3][0] == "c":
+        e = e[3]
+    if isinstance(e, tuple) and e and e[0] == "c" and isinstance(e[1], int):
+        return e[1]
+    return None
+
+
+def peel(e):
+    """strip reference / deref / unsize wrappers"""
+    while isinstance(e, tuple) and e:
+        if e[0] == "ref":
+            e = e[2]
+        elif e[0] == "deref":
+            e = e[1]
+        elif e[0] == "unsize":
+            e = e[1]
+        else:
+            break
+    return e
+
+
+class Dec:
+    """decode-side signature of an expression + the read call sites in evaluation order"""
+
+    def __init__(self, crate):
+        self.crate = crate
+        self.reads = []
+
+    def read(self, e):
+        self.reads.append(e[3] if len(e) > 3 else None)
+
+    def sig(self, e, unwrapped=False):
+        e = peel(e)
+        k = e[0]
+        if k == "unwrapped":
+            return self.sig(e[1], True)
+        if k == "call":
+            f, a = e[1], e[2]
+            last = f.split("::")[-1]
+            if f in (PK + "Unpacker::read_int", PK + "IntUnpacker::read_int"):
+                self.read(e)
+                return INT_ANY if unwrapped else ("unknown", "read_int without `?`")
+            if f == PK + "in_range" and unwrapped:
+                inner = self.sig(a[0])
+                lo, hi = cint(a[1]), cint(a[2])
+                if inner == INT_ANY and lo is not None and hi is not None:
+                    return ("int", lo, hi)
+                return ("unknown", show(strip_sites(e))[:80])
+            if f == PK + "positive" and unwrapped:
+                inner = self.sig(a[0])
+                return ("int", 0, None) if inner == INT_ANY else ("unknown", show(strip_sites(e))[:80])
+            if f == PK + "at_least" and unwrapped:
+                inner = self.sig(a[0])
+                lo = cint(a[1])
+                return ("int", lo, None) if inner == INT_ANY and lo is not None else ("unknown", show(strip_sites(e))[:80])
+            if f == PK + "to_bool" and unwrapped:
+                inner = self.sig(a[0])
+                return ("bool",) if inner == INT_ANY else ("unknown", show(strip_sites(e))[:80])
+            if last == "from_i32" and f.startswith(self.crate + "::enums::") and unwrapped:
+                inner = self.sig(a[0])
+                return ("enum", f.split("::")[-2]) if inner == INT_ANY else ("unknown", show(strip_sites(e))[:80])
+            if f == PK + "Unpacker::read_string":
+                self.read(e)
+                return ("string", False) if unwrapped else ("unknown", "read_string without `?`")
+            if f == PK + "sanitize" and unwrapped:
+                inner = self.sig(a[1])
+                return ("string", True) if inner == ("string", False) else ("unknown", show(strip_sites(e))[:80])
+            if f == GC + "msg::int_from_string" and unwrapped:
+                inner = self.sig(a[0])
+                return ("int_string",) if inner == ("string", False) else ("unknown", show(strip_sites(e))[:80])
+            if f == PK + "Unpacker::read_data":
+                self.read(e)
+                return ("data",) if unwrapped else ("unknown", "read_data without `?`")
+            if f == PK + "Unpacker::read_rest":
+                self.read(e)
+                return ("rest",) if unwrapped else ("unknown", "read_rest without `?`")
+            if f == PK + "Unpacker::read_raw":
+                self.read(e)
+                n = cint(a[1])
+                return ("rawbytes", n) if unwrapped and n is not None else ("unknown", "read_raw")
+            if f in ("uuid::Uuid::from_slice", "uuid::builder::from_slice") and unwrapped:
+                inner = self.sig(a[0])
+                return ("raw", 16, "Uuid") if inner == ("rawbytes", 16) else ("unknown", show(strip_sites(e))[:80])
+            if f == "libtw2_common::digest::Sha256::from_slice" and unwrapped:
+                inner = self.sig(a[0])
+                return ("raw", 32, "Sha256") if inner == ("rawbytes", 32) else ("unknown", show(strip_sites(e))[:80])
+            if f in ("std::result::Result::ok",) and not unwrapped:
+                # optional member: the inner expression without its `?`
+                inner = self.sig(("unwrapped", a[0]))
+                return ("opt", inner)
+            if last == "from_be_bytes" and f.startswith("std::num::"):
+                arr = peel(a[0])
+                if arr[0] == "agg" and arr[1] == "array" and len(arr[4]) == 2:
+                    srcs = []
+                    for i, (n, v) in enumerate(arr[4]):
+                        v = peel(v)
+                        if v[0] in ("index", "cindex"):
+                            idx = cint(v[2]) if v[0] == "index" else v[2]
+                            srcs.append((idx, peel(v[1])))
+                    if len(srcs) == 2 and srcs[0][0] == 0 and srcs[1][0] == 1 and strip_sites(srcs[0][1]) == strip_sites(srcs[1][1]):
+                        inner = self.sig(srcs[0][1])
+                        if inner == ("rawbytes", 2):
+                            return ("be16",)
+                return ("unknown", show(strip_sites(e))[:80])
+            if f == self.crate + "::msg::connless::ClientsData::from_bytes" or f.endswith("::ClientsData::from_bytes"):
+                inner = self.sig(a[0])
+                return ("clients",) if inner == ("rest",) else ("unknown", show(strip_sites(e))[:80])
+            if last == "from_bytes" and "AddrPackedSliceExt" in f:
+                inner = self.sig(a[-1])
+                return ("addrs",) if inner == ("rest",) else ("unknown", show(strip_sites(e))[:80])
+            if last in ("decode_msg", "decode_inner") and f.startswith(self.crate + "::snap_obj::") and unwrapped:
+                self.read(e)
+                return ("obj" if last == "decode_msg" else "super", f.split("::")[-2])
+            return ("unknown", show(strip_sites(e))[:80])
+        if k in ("index", "cindex"):
+            idx = cint(e[2]) if k == "index" else e[2]
+            inner = self.sig(e[1])
+            if inner == ("rawbytes", 1) and idx == 0:
+                return ("u8",)
+            return ("unknown", show(strip_sites(e))[:80])
+        if k == "agg":
+            if e[1] == "adt":
+                nm = (e[2] or "").split("::")[-1]
+                if nm in ("TuneParam", "Tick") and len(e[4]) == 1:
+                    return ("newtype", nm, self.sig(e[4][0][1]))
+            if e[1] == "array":
+                inner = [self.sig(v) for n, v in e[4]]
+                if inner and all(x == inner[0] for x in inner):
+                    return ("array", len(inner), inner[0])
+                return ("unknown", "array with differing element decoders")
+        return ("unknown", show(strip_sites(e))[:80])
+
+
+def result_struct(body, ir, tname):
+    """the aggregate of type tname built by the function (the decoded value), with its position"""
+    found = []
+    for bi in sorted(body.live):
+        for si, st in enumerate(body.blocks[bi]["st"]):
+            if st["k"] == "assign" and st["r"]["k"] == "agg" and (st["r"].get("adt") or "").split("::")[-1] == tname:
+                found.append((bi, si, st))
+    return found
+
+
+# ---------------------------------------------------------------------------------------------------------
+def load_spec(name):
+    p = os.path.join(extract.REPO, "gamenet", "generate", "spec", name + ".json")
+    try:
+        with open(p) as fh:
+            return json.load(fh), p
+    except (OSError, ValueError) as e:
+        raise AnchorLost("description %s unreadable: %s" % (p, e))
 
 
 def run(ctx, rep):
-    R, pa = standard_totality(ctx, rep, "C14", TABLES, rule="R-no-panic")
-    specific(ctx, rep, R, pa)
+    R, pa = standard_totality(ctx, rep, "C14", TABLES, rule="R4-no-panic")
+    specific(ctx, rep)
 
 
-def specific(ctx, rep, R, pa):
-    pass
+def specific(ctx, rep):
+    prog = ctx.prog
+    helpers(prog, rep)
+    programs = 0
+    disagreements = 0
+    for spec_name, crate in SPECS:
+        spec, path = load_spec(spec_name)
+        n, d = check_spec(prog, rep, spec_name, crate, spec)
+        programs += n
+        disagreements += d
+    id_packing(prog, rep)
+    rep.programs = programs
+    rep.disagreements_checked = disagreements
+    rep.floor("R1-decode-layout", programs, 379, "codecs (messages + snapshot objects) of the four descriptions")
+
+
+# ---------------------------------------------------------------------------------------------------------
+def helpers(prog, rep):
+    """R0: the constraint helpers accept exactly what their use in R1 assumes"""
+    rule = "R0-constraint-helpers"
+
+    def ok_conditions(fn):
+        b = prog.one(fn)
+        ir = IR(b)
+        out = []
+        for bi in sorted(b.live):
+            for si, st in enumerate(b.blocks[bi]["st"]):
+                if st["k"] == "assign" and st["r"]["k"] == "agg" and (st["r"].get("adt") or "").endswith("Result") \
+                        and st["r"].get("variant") in ("Ok", 0):
+                    e = ir.rvalue(st["r"], (bi, si))
+                    conds = []
+                    for c, rel, v, edge, dty in ir.edge_conditions(bi):
+                        conds.append((show(strip_sites(c)), rel, v))
+                    out.append((show(strip_sites(e)), sorted(conds, key=str)))
+        return b, out
+
+    def norm(conds):
+        """set of `a <= b` facts"""
+        facts = set()
+        for c, rel, v in conds:
+            truth = None
+            if rel == "==" and v in (0, 1):
+                truth = bool(v)
+            elif rel == "notin" and len(v) == 1 and v[0] in (0, 1):
+                truth = not bool(v[0])
+            facts.add((c, truth))
+        return facts
+
+    want = {
+        PK + "in_range": ({("Le(min, v)", True), ("Le(v, max)", True)}, "v"),
+        PK + "at_least": ({("Le(min, v)", True)}, "v"),
+        PK + "positive": ({("Ge(v, 0)", True)}, "v"),
+    }
+    for fn, (facts, payload) in sorted(want.items()):
+        b, oks = ok_conditions(fn)
+        good = len(oks) == 1 and norm(oks[0][1]) == facts and oks[0][0].endswith("{0: %s}" % payload)
+        rep.ob(rule, fn.split("::")[-1], good,
+               "Ok(%s) is returned exactly under %s" % (payload, " && ".join(sorted(f for f, t in facts))) if good
+               else "Ok is built as %s" % (oks,), b.loc())
+    # to_bool: Ok(in_range(v, 0, 1)? != 0)
+    b, oks = ok_conditions(PK + "to_bool")
+    good = len(oks) == 1 and "Ne(ok(libtw2_packer::in_range(v, 0, 1)), 0)" in oks[0][0]
+    rep.ob(rule, "to_bool", good, "Ok(in_range(v, 0, 1)? != 0)" if good else "Ok is built as %s" % (oks,), b.loc())
+    # sanitize: Err when any byte < 0x20, otherwise Ok(v)
+    b = prog.one(PK + "sanitize")
+    ir = IR(b)
+    cl = [x for x in prog.bodies.values() if x.id.startswith(PK + "sanitize::{closure")]
+    cgood = False
+    for c in cl:
+        cir = IR(c)
+        for rb in c.return_blocks():
+            e = cir.place({"l": 0}, (rb, len(c.blocks[rb]["st"])))
+            s = show(strip_sites(e))
+            if s.startswith("Lt(") and s.endswith(", 32)"):
+                cgood = True
+    b2, oks = ok_conditions(PK + "sanitize")
+    anyc = [t for bi, t in b.calls() if path_matches(t.get("callee") or "", "any")]
+    good = cgood and len(anyc) == 1 and len(oks) == 1 and (oks[0][0].endswith("{0: v}") or oks[0][0].endswith("{0: &*v}")) and \
+        any("any(" in c and rel == "==" and v == 0 for c, rel, v in oks[0][1])
+    rep.ob(rule, "sanitize", good, "Ok(v) exactly when no byte is below 0x20" if good else "closure ok=%s, Ok built as %s" % (cgood, oks), b.loc())
+    rep.floor(rule, 5, 5, "constraint helpers")
+
+
+# ---------------------------------------------------------------------------------------------------------
+def find_body(prog, *ids):
+    for i in ids:
+        b = prog.bodies.get(i)
+        if b is not None:
+            return b
+    return None
+
+
+def check_spec(prog, rep, spec_name, crate, spec):
+    n = 0
+    dis = 0
+    objs = {tuple(o["name"]): o for o in spec["snapshot_objects"]}
+    for sec, mod in (("system_messages", "msg::system"), ("game_messages", "msg::game"), ("connless_messages", "msg::connless")):
+        for m in spec[sec]:
+            n += 1
+            dis += message_codec(prog, rep, spec_name, crate, mod, m)
+    for o in spec["snapshot_objects"]:
+        n += 1
+        dis += object_codec(prog, rep, spec_name, crate, o, objs)
+    tables(prog, rep, spec_name, crate, spec, objs)
+    return n, dis
+
+
+def expected_members(m):
+    return [(snake(x["name"]), kind_signature(x["type"], m)) for x in m["members"]]
+
+
+def struct_path(crate, mod, m):
+    for a in m.get("attributes", []):
+        if a in SNAP_STRUCTS:
+            return SNAP + SNAP_STRUCTS[a], True
+    return "%s::%s::%s" % (crate, mod, title(m["name"])), False
+
+
+def compare_layout(rep, rule, who, got, want, at):
+    """field-by-field comparison; returns number of comparisons made"""
+    ok = True
+    cmp_ = 0
+    if [g[0] for g in got] != [w[0] for w in want]:
+        rep.ob(rule, who + " | fields", False, "decoded fields %s, described members %s" % ([g[0] for g in got], [w[0] for w in want]), at)
+        return 1
+    for (gn, gs), (wn, ws) in zip(got, want):
+        cmp_ += 1
+        if gs != ws:
+            ok = False
+            rep.ob(rule, who + " | " + gn, False, "member `%s`: code accepts %s, description says %s" % (gn, sig_str(gs), sig_str(ws)), at)
+    if ok:
+        rep.ob(rule, who, True, "%d member(s): %s" % (len(want), ", ".join("%s: %s" % (n, sig_str(s)) for n, s in want)[:300]), at)
+    return cmp_ + 1
+
+
+def reads_in_order(body, sites):
+    """each read's call block strictly dominates the next one's"""
+    for a, b in zip(sites, sites[1:]):
+        if a is None or b is None:
+            return False
+        ba, bb_ = a[1], b[1]
+        if ba == bb_ or not body.dominates(ba, bb_):
+            return False
+    return True
+
+
+def message_codec(prog, rep, spec_name, crate, mod, m):
+    rule = "R1-decode-layout"
+    path, handwritten = struct_path(crate, mod, m)
+    tname = path.split("::")[-1]
+    who = "%s %s" % (spec_name, mod.split("::")[-1] + "::" + title(m["name"]))
+    dec = find_body(prog, path + "::decode")
+    if dec is None:
+        rep.ob(rule, who, False, "no decoder %s::decode for described message %s" % (path, "_".join(m["name"])))
+        return 1
+    want = expected_members(m)
+    ir = IR(dec)
+    d = Dec(crate)
+    got = []
+    aggs = result_struct(dec, ir, tname)
+    if want:
+        if len(aggs) != 1:
+            rep.ob(rule, who, False, "%d constructions of %s in the decoder, expected one" % (len(aggs), tname), dec.loc())
+            return 1
+        bi, si, st = aggs[0]
+        e = ir.rvalue(st["r"], (bi, si))
+        for fname, fe in e[4]:
+            got.append((str(fname), d.sig(fe)))
+    else:
+        if any(True for _ in []):
+            pass
+    n = compare_layout(rep, rule, who, got, want, dec.loc())
+    if want and not reads_in_order(dec, d.reads):
+        rep.ob(rule, who + " | read order", False, "the reads of consecutive members are not sequenced in member order", dec.loc())
+    # finish() before returning: excess data must be reported (decodes `without warnings` only when nothing is left over)
+    fin = [bi for bi, t in dec.calls() if (t.get("callee") or "") in (PK + "Unpacker::finish",)]
+    rets = set(dec.return_blocks())
+    start = aggs[0][0] if aggs else None
+    if start is None:
+        oks = [bi for bi in sorted(dec.live) for st in dec.blocks[bi]["st"]
+               if st["k"] == "assign" and st["r"]["k"] == "agg" and (st["r"].get("adt") or "").endswith("Result")]
+        start = oks[0] if len(oks) == 1 else None
+    okf = len(fin) == 1 and start is not None and dec.dominates(start, fin[0]) and \
+        not (rets & dec.reachable_from(start, removed_blocks=frozenset(fin)))
+    if not okf:
+        rep.ob(rule, who + " | finish", False, "the decoder returns without calling Unpacker::finish (trailing bytes would go unnoticed)", dec.loc())
+    n += encode_message(prog, rep, spec_name, crate, mod, m, path, want)
+    return n
+
+
+def object_codec(prog, rep, spec_name, crate, o, objs):
+    rule = "R1-decode-layout"
+    tname = title(o["name"])
+    path = "%s::snap_obj::%s" % (crate, tname)
+    who = "%s snap_obj::%s" % (spec_name, tname)
+    dec = find_body(prog, path + "::decode_inner")
+    if dec is None:
+        rep.ob(rule, who, False, "no decoder %s::decode_inner for described object" % path)
+        return 1
+    want = expected_members(o)
+    if o.get("super"):
+        want = [(snake(o["super"]), ("super", title(o["super"])))] + want
+    ir = IR(dec)
+    d = Dec(crate)
+    got = []
+    aggs = result_struct(dec, ir, tname)
+    if want:
+        if len(aggs) != 1:
+            rep.ob(rule, who, False, "%d constructions of %s in the decoder, expected one" % (len(aggs), tname), dec.loc())
+            return 1
+        bi, si, st = aggs[0]
+        e = ir.rvalue(st["r"], (bi, si))
+        for fname, fe in e[4]:
+            got.append((str(fname), d.sig(fe)))
+    n = compare_layout(rep, rule, who, got, want, dec.loc())
+    if want and not reads_in_order(dec, d.reads):
+        rep.ob(rule, who + " | read order", False, "the reads of consecutive members are not sequenced in member order", dec.loc())
+    # decode = decode_inner + finish
+    outer = find_body(prog, path + "::decode")
+    if outer is None:
+        rep.ob(rule, who + " | decode", False, "no %s::decode" % path)
+    else:
+        inner = [bi for bi, t in outer.calls() if (t.get("callee") or "") == path + "::decode_inner"]
+        fin = [bi for bi, t in outer.calls() if (t.get("callee") or "") == PK + "IntUnpacker::finish"]
+        okd = len(inner) == 1 and len(fin) == 1 and outer.dominates(inner[0], fin[0])
+        if not okd:
+            rep.ob(rule, who + " | decode", False, "decode is not decode_inner followed by IntUnpacker::finish", outer.loc())
+    n += encode_object(prog, rep, spec_name, crate, o, path, want)
+    return n
+
+
+# ---------------------------------------------------------------------------------------------------------
+# encoders
+WRITES = {PK + "Packer::write_int": "int", PK + "Packer::write_string": "string", PK + "Packer::write_data": "data",
+          PK + "Packer::write_rest": "rest", PK + "Packer::write_raw": "raw", PK + "with_packer": "obj"}
+
+
+class Src:
+    """where a written value comes from: the field of self and the conversions applied on the way"""
+
+    def __init__(self, ir, crate):
+        self.ir = ir
+        self.crate = crate
+
+    def of(self, e, tags=None):
+        tags = [] if tags is None else tags
+        ir = self.ir
+        for _ in range(40):
+            e = peel(e)
+            k = e[0]
+            if k == "cast":
+                if e[2] == "i32" and ir.type_of(e[3]) == "bool":
+                    tags.append("bool")
+                else:
+                    tags.append("cast:" + str(e[2]))
+                e = e[3]
+                continue
+            if k == "unwrapped":
+                x = peel(e[1])
+                if x[0] == "call" and x[1].endswith("::next") and "Iterator" in x[1] and x[2]:
+                    it = peel(x[2][0])
+                    init = ir.var_init(it[1]) if it[0] == "var" else None
+                    if init is not None and init[0] == "call" and path_matches(init[1], "into_iter"):
+                        tags.append("elem")
+                        e = init[2][0]
+                        continue
+                    return None, tags
+                tags.append("opt")
+                e = x
+                continue
+            if k == "call":
+                f, a = e[1], e[2]
+                last = f.split("::")[-1]
+                if last == "to_i32" and f.startswith(self.crate + "::enums::"):
+                    tags.append("enum:" + f.split("::")[-2])
+                elif f == GC + "msg::string_from_int":
+                    tags.append("int_string")
+                elif f == "uuid::Uuid::as_bytes":
+                    tags.append("uuid_bytes")
+                elif last == "to_be_bytes" and f.startswith("std::num::"):
+                    tags.append("be_bytes")
+                elif last == "as_bytes" and ("AddrPackedSliceExt" in f or "ClientsData" in f):
+                    tags.append("as_bytes")
+                elif f.endswith("as std::ops::Deref>::deref") and "ArrayVec" in f:
+                    pass
+                else:
+                    return None, tags + ["call:" + f]
+                e = a[0]
+                continue
+            if k == "agg" and e[1] == "array" and len(e[4]) == 1:
+                tags.append("array1")
+                e = e[4][0][1]
+                continue
+            if k == "agg" and e[1] == "closure":
+                tags.append("closure:" + str(e[2]))
+                if len(e[4]) == 1:
+                    e = e[4][0][1]
+                    continue
+                return None, tags
+            if k == "field":
+                base = peel(e[1])
+                if base[0] == "arg" and base[1] == 0:
+                    return str(e[2]), tags
+                tags.append("." + str(e[2]))
+                e = base
+                continue
+            return None, tags + ["expr:" + show(strip_sites(e))[:60]]
+        return None, tags
+
+
+def obj_closure_field(prog, crate, c):
+    """with_packer(&mut _p, |p| self.<field>.encode_msg(p)): the field and the object type"""
+    if c[0] != "agg" or c[1] != "closure":
+        return None, ["expr:" + show(strip_sites(c))[:60]]
+    cb = prog.bodies.get(c[2])
+    if cb is None:
+        return None, ["closure-body-missing"]
+    cir = IR(cb)
+    calls = [(bi, t) for bi, t in cb.calls() if (t.get("callee") or "").startswith(crate + "::snap_obj::") and (t.get("callee") or "").endswith("::encode_msg")]
+    if len(calls) != 1:
+        return None, ["closure-calls:%d" % len(calls)]
+    e = cir.call_expr(calls[0][0], calls[0][1])
+    names = [x[2] for x in walk(e[2][0]) if isinstance(x, tuple) and x and x[0] == "field" and isinstance(x[2], str)]
+    if len(names) != 1:
+        return None, ["closure-arg:" + show(strip_sites(e[2][0]))[:60]]
+    return names[0], ["closure", "objtype:" + calls[0][1]["callee"].split("::")[-2]]
+
+
+def enc_expected(name, s):
+    """(primitive, field, conversion tags) the encoder must use for a member of signature s"""
+    k = s[0]
+    if k == "int":
+        return ("int", name, ())
+    if k == "bool":
+        return ("int", name, ("bool",))
+    if k == "enum":
+        return ("int", name, ("enum:" + s[1],))
+    if k == "newtype":
+        return ("int", name, (".0",))
+    if k == "string":
+        return ("string", name, ())
+    if k == "int_string":
+        return ("string", name, ("int_string",))
+    if k == "data":
+        return ("data", name, ())
+    if k == "rest":
+        return ("rest", name, ())
+    if k in ("addrs", "clients"):
+        return ("rest", name, ("as_bytes",))
+    if k == "raw" and s[2] == "Uuid":
+        return ("raw", name, ("uuid_bytes",))
+    if k == "raw" and s[2] == "Sha256":
+        return ("raw", name, (".0",))
+    if k == "be16":
+        return ("raw", name, ("be_bytes",))
+    if k == "u8":
+        return ("raw", name, ("array1",))
+    if k == "opt":
+        p, n, t = enc_expected(name, s[1])
+        return (p, n, t + ("opt",))
+    if k == "array":
+        p, n, t = enc_expected(name, s[2])
+        return (p, n, t + ("elem",))
+    if k == "obj":
+        return ("obj", name, ("closure", "objtype:" + s[1]))
+    raise AnchorLost("no encoder expectation for %r" % (s,))
+
+
+def loop_of(body, bi, _cache={}):
+    key = id(body)
+    if key not in _cache:
+        _cache.clear()
+        _cache[key] = body.sccs()
+    for comp in _cache[key]:
+        if bi in comp:
+            heads = [h for h in comp if all(body.dominates(h, x) for x in comp)]
+            return comp, (heads[0] if heads else None)
+    return None, None
+
+
+def truth_of(rel, v):
+    if rel == "==" and v in (0, 1):
+        return bool(v)
+    if rel == "notin" and len(v) == 1 and v[0] in (0, 1):
+        return not bool(v[0])
+    return None
+
+
+def bound_facts(ir, srcr, bi):
+    """{(field, 'lo'|'hi'|'elem-lo'..): constant} established on every path to block bi"""
+    out = {}
+    for c, rel, v, edge, dty in ir.edge_conditions(bi):
+        t = truth_of(rel, v)
+        if t is None or c[0] != "bin" or c[1] not in ("Le", "Ge", "Lt", "Gt"):
+            continue
+        op, a, b = c[1], c[2], c[3]
+        if not t:
+            op = {"Le": "Gt", "Ge": "Lt", "Lt": "Ge", "Gt": "Le"}[op]
+        # normalise to  lhs <= rhs  (strict forms over integers: a < b  ==  a <= b - 1)
+        if op in ("Ge", "Gt"):
+            a, b = b, a
+            op = {"Ge": "Le", "Gt": "Lt"}[op]
+        ca, cb = cint(a), cint(b)
+        if ca is not None and cb is None:
+            f, tags = srcr.of(b)
+            if f is not None and all(x == "elem" for x in tags):
+                out[(f, "lo", "elem" in tags)] = ca + (1 if op == "Lt" else 0)
+        elif cb is not None and ca is None:
+            f, tags = srcr.of(a)
+            if f is not None and all(x == "elem" for x in tags):
+                out[(f, "hi", "elem" in tags)] = cb - (1 if op == "Lt" else 0)
+    return out
+
+
+def sanitized_fields(enc, ir, srcr, before):
+    """fields (or their elements) passed through sanitize(&mut Panic, ..).unwrap() on every path to `before`"""
+    out = set()
+    for bi, t in enc.calls():
+        if (t.get("callee") or "") != "std::result::Result::unwrap":
+            continue
+        e = ir.call_expr(bi, t)
+        x = peel(e[2][0])
+        if x[0] == "call" and x[1] == PK + "sanitize":
+            f, tags = srcr.of(x[2][1])
+            if f is None:
+                continue
+            comp, head = loop_of(enc, bi)
+            pos = head if comp else bi
+            if pos is not None and enc.dominates(pos, before) and all(tg == "elem" for tg in tags):
+                if comp and "elem" in tags:
+                    out.add((f, True))
+                elif not comp and "elem" not in tags:
+                    out.add((f, False))
+    return out
+
+
+def encode_message(prog, rep, spec_name, crate, mod, m, path, want):
+    rule = "R1e-encode-layout"
+    who = "%s %s" % (spec_name, mod.split("::")[-1] + "::" + title(m["name"]))
+    enc = find_body(prog, path + "::encode")
+    if enc is None:
+        rep.ob(rule, who, False, "no encoder %s::encode" % path)
+        return 1
+    ir = IR(enc)
+    srcr = Src(ir, crate)
+    ws = []
+    for bi, t in enc.calls():
+        prim = WRITES.get(t.get("callee") or "")
+        if prim is None:
+            continue
+        comp, head = loop_of(enc, bi)
+        e = ir.call_expr(bi, t)
+        if prim == "obj":
+            f, tags = obj_closure_field(prog, crate, peel(e[2][1]))
+        else:
+            f, tags = srcr.of(e[2][1])
+        ws.append({"bb": bi, "pos": head if comp else bi, "loop": bool(comp), "prim": prim, "field": f, "tags": tuple(tags)})
+    # order the writes: positions must be totally ordered by dominance
+    ws.sort(key=lambda w: len(enc.dom_chain(w["pos"])))
+    ordered = all(a["pos"] != b["pos"] and enc.dominates(a["pos"], b["pos"]) for a, b in zip(ws, ws[1:]))
+    exp = [enc_expected(n, s) for n, s in want]
+    got = []
+    for w in ws:
+        tags = w["tags"]
+        got.append((w["prim"], w["field"], tags))
+    n = 1
+    good = ordered and len(got) == len(exp)
+    if good:
+        for g, x, w in zip(got, exp, ws):
+            n += 1
+            if g[0] != x[0] or g[1] != x[1] or sorted(g[2]) != sorted(x[2]) or (("elem" in x[2]) != w["loop"]):
+                good = False
+                rep.ob(rule, who + " | " + x[1], False, "member `%s`: encoder writes %s(%s %s), description requires %s(%s %s)"
+                       % (x[1], g[0], g[1], list(g[2]), x[0], x[1], list(x[2])), enc.loc())
+    else:
+        rep.ob(rule, who + " | writes", False, "encoder writes %s%s, description requires %s"
+               % ([(g[0], g[1]) for g in got], "" if ordered else " (not sequenced)", [(x[0], x[1]) for x in exp]), enc.loc())
+    # the result is the packer's written bytes, after all writes
+    wr = [bi for bi, t in enc.calls() if (t.get("callee") or "") == PK + "Packer::written"]
+    if len(wr) != 1 or not all(enc.dominates(w["pos"], wr[0]) for w in ws):
+        good = False
+        rep.ob(rule, who + " | written", False, "the encoder does not return Packer::written() after its writes", enc.loc())
+    # constraints asserted before the first write
+    first = ws[0]["pos"] if ws else (wr[0] if wr else None)
+    if first is not None:
+        facts = bound_facts(ir, srcr, first)
+        # element constraints: established at the latch of a loop that precedes the first write
+        for comp in enc.sccs():
+            heads = [h for h in comp if all(enc.dominates(h, x) for x in comp)]
+            if not heads or not enc.dominates(heads[0], first) or first in comp:
+                continue
+            latches = [b for b in comp if heads[0] in enc.succ[b]]
+            for l in latches:
+                for k2, v2 in bound_facts(ir, srcr, l).items():
+                    if k2[2]:
+                        facts[k2] = v2
+        san = sanitized_fields(enc, ir, srcr, first)
+        for name, s in want:
+            elem = False
+            while s[0] in ("array", "opt"):
+                elem = elem or s[0] == "array"
+                s = s[2] if s[0] == "array" else s[1]
+            if s[0] == "int" and (s[1] is not None or s[2] is not None):
+                n += 1
+                lo_ok = s[1] is None or facts.get((name, "lo", elem)) == s[1]
+                hi_ok = s[2] is None or facts.get((name, "hi", elem)) == s[2]
+                if not (lo_ok and hi_ok):
+                    good = False
+                    rep.ob(rule, who + " | assert " + name, False,
+                           "member `%s` is described as %s but the encoder establishes lo=%s hi=%s before writing"
+                           % (name, sig_str(s), facts.get((name, "lo", elem)), facts.get((name, "hi", elem))), enc.loc())
+            if s == ("string", True):
+                n += 1
+                if (name, elem) not in san:
+                    good = False
+                    rep.ob(rule, who + " | assert " + name, False,
+                           "member `%s` must not contain control characters but the encoder does not check it before writing" % name, enc.loc())
+    if good:
+        rep.ob(rule, who, True, "%d write(s) in member order with the inverse primitives; constraints asserted" % len(ws), enc.loc())
+    return n
+
+
+def encode_object(prog, rep, spec_name, crate, o, path, want):
+    """snapshot objects are re-exposed as their own memory: layout + asserted constraints"""
+    rule = "R1e-encode-layout"
+    tname = title(o["name"])
+    who = "%s snap_obj::%s" % (spec_name, tname)
+    a = prog.adts.get(path)
+    if a is None or a["kind"] != "Struct":
+        rep.ob(rule, who, False, "no struct %s" % path)
+        return 1
+    n = 1
+    good = True
+    fields = a["variants"][0]["fields"]
+    words = 0
+    lay = []
+    for (name, s), f in zip(want, fields):
+        if s[0] == "super":
+            sup = prog.adts.get("%s::snap_obj::%s" % (crate, s[1]))
+            sz = sup["size"] if sup else None
+        else:
+            sz = 4 * sig_words(s)
+        lay.append((f["n"], f["ty"], sz))
+        words += (sz or 0) // 4
+    fsz = []
+    for f in fields:
+        fsz.append(type_size(prog, f["ty"]))
+    at = "%s:%s" % (a.get("file"), a.get("ln"))
+    if not a.get("repr_c"):
+        good = False
+        rep.ob(rule, who + " | repr", False, "the struct is not #[repr(C)]: field order in memory is unspecified", at)
+    if len(fields) != len(want) or [f["n"] for f in fields] != [w[0] for w in want]:
+        good = False
+        rep.ob(rule, who + " | fields", False, "struct fields %s, described members %s" % ([f["n"] for f in fields], [w[0] for w in want]), at)
+    else:
+        for (fname, fty, want_sz), have in zip(lay, fsz):
+            n += 1
+            if have != want_sz:
+                good = False
+                rep.ob(rule, who + " | word " + fname, False,
+                       "member `%s` occupies %s byte(s) of the struct (type %s) but %s byte(s) of 32-bit words on the wire: encode() "
+                       "transmutes the struct to &[i32], so the remaining bytes of that word are padding (uninitialised)" % (fname, have, fty, want_sz), at)
+        if good and a.get("size") != 4 * words:
+            n += 1
+            good = False
+            rep.ob(rule, who + " | size", False, "struct size %s, description has %d words" % (a.get("size"), words), at)
+    enc = find_body(prog, path + "::encode")
+    if enc is None:
+        rep.ob(rule, who + " | encode", False, "no %s::encode" % path)
+        return n
+    ir = IR(enc)
+    srcr = Src(ir, crate)
+    # the returned slice is the transmuted from_ref(self)
+    tr = [(bi, t) for bi, t in enc.calls() if (t.get("callee") or "") == "libtw2_common::slice::transmute"]
+    okr = False
+    if len(tr) == 1:
+        e = ir.call_expr(tr[0][0], tr[0][1])
+        x = peel(e[2][0])
+        if x[0] == "call" and path_matches(x[1], "from_ref"):
+            y = peel(x[2][0])
+            okr = y[0] == "arg" and y[1] == 0
+    if not okr:
+        good = False
+        rep.ob(rule, who + " | encode", False, "encode does not return slice::transmute(from_ref(self))", enc.loc())
+    else:
+        first = tr[0][0]
+        facts = bound_facts(ir, srcr, first)
+        for comp in enc.sccs():
+            heads = [h for h in comp if all(enc.dominates(h, x) for x in comp)]
+            if not heads or not enc.dominates(heads[0], first) or first in comp:
+                continue
+            for l in [b for b in comp if heads[0] in enc.succ[b]]:
+                for k2, v2 in bound_facts(ir, srcr, l).items():
+                    if k2[2]:
+                        facts[k2] = v2
+        sup = [w for w in want if w[1][0] == "super"]
+        if sup:
+            sc = [bi for bi, t in enc.calls() if (t.get("callee") or "") == "%s::snap_obj::%s::encode" % (crate, sup[0][1][1])]
+            if not (len(sc) == 1 and enc.dominates(sc[0], first)):
+                good = False
+                rep.ob(rule, who + " | super", False, "the inherited part's constraints (%s::encode) are not asserted" % sup[0][1][1], enc.loc())
+        for name, s in want:
+            elem = False
+            while s[0] in ("array",):
+                elem = True
+                s = s[2]
+            if s[0] == "int" and (s[1] is not None or s[2] is not None):
+                n += 1
+                lo_ok = s[1] is None or facts.get((name, "lo", elem)) == s[1]
+                hi_ok = s[2] is None or facts.get((name, "hi", elem)) == s[2]
+                if not (lo_ok and hi_ok):
+                    good = False
+                    rep.ob(rule, who + " | assert " + name, False,
+                           "member `%s` is described as %s but encode establishes lo=%s hi=%s before exposing the words"
+                           % (name, sig_str(s), facts.get((name, "lo", elem)), facts.get((name, "hi", elem))), enc.loc())
+    if good:
+        rep.ob(rule, who, True, "repr(C), %d word(s), every member one 32-bit word per described integer; constraints asserted" % words, at)
+    return n
+
+
+def type_size(prog, ty):
+    ty = ty.strip()
+    if ty in ("i32", "u32"):
+        return 4
+    if ty in ("bool", "u8", "i8"):
+        return 1
+    if ty in ("u16", "i16"):
+        return 2
+    if ty in ("u64", "i64"):
+        return 8
+    if ty.startswith("[") and ";" in ty:
+        inner, n = ty[1:-1].rsplit(";", 1)
+        s = type_size(prog, inner)
+        try:
+            return s * int(n) if s is not None else None
+        except ValueError:
+            return None
+    a = prog.adts.get(ty)
+    if a is not None:
+        return a.get("size")
+    return None
+
+
+# ---------------------------------------------------------------------------------------------------------
+# tables
+def uuid_bytes(s):
+    return _uuid.UUID(s).bytes
+
+
+def dispatch_map(prog, fn, decoder_suffix):
+    """{matched id: decoder struct} read from the conditions dominating each call to a decoder"""
+    b = prog.bodies.get(fn)
+    if b is None:
+        return None, None
+    ir = IR(b)
+    out = []
+    for bi, t in b.calls():
+        cal = t.get("callee") or ""
+        if not cal.endswith(decoder_suffix) or cal == fn:
+            continue
+        ordv = None
+        ub = {}
+        discr = None
+        other = []
+        for c, rel, v, edge, dty in ir.edge_conditions(bi):
+            if rel != "==":
+                continue
+            c = strip_sites(c)
+            s = show(c)
+            if c[0] == "discr":
+                discr = v
+            elif c[0] in ("cindex", "index") or (c[0] == "deref" and c[1][0] in ("cindex", "index")):
+                x = c if c[0] != "deref" else c[1]
+                idx = x[2] if x[0] == "cindex" else cint(x[2])
+                ub[idx] = v
+            else:
+                other.append((s, v))
+                ordv = v
+        if ub:
+            key = bytes(ub.get(i, -1) & 0xff for i in range(max(ub) + 1)) if all(isinstance(x, int) for x in ub.values()) else None
+            if len(ub) != max(ub) + 1:
+                key = None
+            out.append((key, cal, discr))
+        else:
+            out.append((ordv, cal, discr))
+    return b, out
+
+
+def tables(prog, rep, spec_name, crate, spec, objs):
+    rule = "R2-tables"
+    # ---- messages
+    for sec, mod, en in (("system_messages", "msg::system", "System"), ("game_messages", "msg::game", "Game")):
+        msgs = spec[sec]
+        want = {}
+        for m in msgs:
+            path, hand = struct_path(crate, mod, m)
+            cname = "%s::%s::%s" % (crate, mod, caps(m["name"]))
+            c = prog.consts.get(cname)
+            mid = m["id"]
+            who = "%s %s::%s" % (spec_name, mod.split("::")[-1], caps(m["name"]))
+            if c is None:
+                rep.ob(rule, who + " | const", False, "no constant %s" % cname)
+                continue
+            if isinstance(mid, int):
+                okc = c.get("v") == mid
+                key = mid
+            else:
+                raw = bytes.fromhex(c.get("bytes") or "")
+                okc = raw == uuid_bytes(mid)
+                key = uuid_bytes(mid)
+                if "id_from" in m and m["id_from"].get("algorithm") == "uuid_v3":
+                    calc = _uuid.uuid3(_uuid.UUID(m["id_from"]["namespace"]), m["id_from"]["name"])
+                    if calc.bytes != key:
+                        rep.ob(rule, who + " | id_from", False, "described id %s is not uuid_v3(%s)" % (mid, m["id_from"]["name"]))
+            rep.ob(rule, who + " | const", okc, "constant equals the described id %s" % (mid,), "%s:%s" % (c.get("file"), c.get("ln")))
+            want[key] = path + "::decode"
+        fn = "%s::%s::%s::decode_msg" % (crate, mod, en)
+        b, got = dispatch_map(prog, fn, "::decode")
+        who = "%s %s::%s::decode_msg" % (spec_name, mod.split("::")[-1], en)
+        if b is None:
+            rep.ob(rule, who, False, "no function " + fn)
+        else:
+            gm = {}
+            dup = []
+            for key, cal, discr in got:
+                if key in gm:
+                    dup.append(key)
+                gm[key] = cal
+            bad = []
+            for k_, v_ in want.items():
+                if gm.get(k_) != v_:
+                    bad.append("id %s -> %s (described: %s)" % (k_.hex() if isinstance(k_, bytes) else k_, gm.get(k_), v_))
+            for k_ in gm:
+                if k_ not in want:
+                    bad.append("undescribed id %s -> %s" % (k_.hex() if isinstance(k_, bytes) else k_, gm[k_]))
+            rep.ob(rule, who, not bad and not dup, "%d described ids each dispatch to their own decoder, nothing else is accepted" % len(want)
+                   if not bad and not dup else "; ".join(bad + ["duplicate %s" % dup] if dup else bad)[:400], b.loc())
+        variant_tables(prog, rep, rule, spec_name, crate, mod, en, msgs, "msg_id", "encode_msg")
+    # ---- connless
+    msgs = spec["connless_messages"]
+    want = {}
+    for m in msgs:
+        cname = "%s::msg::connless::%s" % (crate, caps(m["name"]))
+        c = prog.consts.get(cname)
+        who = "%s connless::%s" % (spec_name, caps(m["name"]))
+        if c is None:
+            rep.ob(rule, who + " | const", False, "no constant %s" % cname)
+            continue
+        raw = bytes.fromhex(c.get("bytes") or c.get("pbytes") or "")
+        okc = raw == bytes(m["id"])
+        if not raw:
+            pass  # a reference constant: its value is read through the patterns of decode_connless below
+        else:
+            rep.ob(rule, who + " | const", okc, "constant equals the described id %s" % bytes(m["id"]), "%s:%s" % (c.get("file"), c.get("ln")))
+        want[bytes(m["id"])] = "%s::msg::connless::%s::decode" % (crate, title(m["name"]))
+    fn = "%s::msg::connless::Connless::decode_connless" % crate
+    b, got = dispatch_map(prog, fn, "::decode")
+    who = "%s connless::Connless::decode_connless" % spec_name
+    if b is None:
+        rep.ob(rule, who, False, "no function " + fn)
+    else:
+        gm = {k_: cal for k_, cal, d in got}
+        bad = ["id %r -> %s (described: %s)" % (k_, gm.get(k_), v_) for k_, v_ in want.items() if gm.get(k_) != v_]
+        bad += ["undescribed id %r -> %s" % (k_, gm[k_]) for k_ in gm if k_ not in want]
+        rep.ob(rule, who, not bad and len(got) == len(want), "%d described ids each dispatch to their own decoder" % len(want) if not bad else "; ".join(bad)[:400], b.loc())
+    variant_tables(prog, rep, rule, spec_name, crate, "msg::connless", "Connless", msgs, "connless_id", "encode_connless")
+    # ---- snapshot objects
+    want = {}
+    sizes = {}
+    for o in spec["snapshot_objects"]:
+        cname = "%s::snap_obj::%s" % (crate, caps(o["name"]))
+        c = prog.consts.get(cname)
+        who = "%s snap_obj::%s" % (spec_name, caps(o["name"]))
+        if c is None:
+            rep.ob(rule, who + " | const", False, "no constant %s" % cname)
+            continue
+        oid = o["id"]
+        if isinstance(oid, int):
+            okc = c.get("v") == oid
+            key = oid
+            w = sum(sig_words(kind_signature(x["type"], o)) for x in o["members"])
+            sup = o.get("super")
+            while sup:
+                so = objs[tuple(sup)]
+                w += sum(sig_words(kind_signature(x["type"], so)) for x in so["members"])
+                sup = so.get("super")
+            sizes[oid] = w
+        else:
+            okc = bytes.fromhex(c.get("bytes") or "") == uuid_bytes(oid)
+            key = uuid_bytes(oid)
+        rep.ob(rule, who + " | const", okc, "constant equals the described id %s" % (oid,), "%s:%s" % (c.get("file"), c.get("ln")))
+        want[key] = "%s::snap_obj::%s::decode" % (crate, title(o["name"]))
+    fn = "%s::snap_obj::SnapObj::decode_obj" % crate
+    b, got = dispatch_map(prog, fn, "::decode")
+    who = "%s snap_obj::SnapObj::decode_obj" % spec_name
+    if b is None:
+        rep.ob(rule, who, False, "no function " + fn)
+    else:
+        gm = {k_: cal for k_, cal, d in got}
+        bad = ["id %s -> %s (described: %s)" % (k_.hex() if isinstance(k_, bytes) else k_, gm.get(k_), v_) for k_, v_ in want.items() if gm.get(k_) != v_]
+        bad += ["undescribed id %s -> %s" % (k_, gm[k_]) for k_ in gm if k_ not in want]
+        rep.ob(rule, who, not bad and len(got) == len(want), "%d described ids each dispatch to their own decoder" % len(want) if not bad else "; ".join(bad)[:400], b.loc())
+    variant_tables(prog, rep, rule, spec_name, crate, "snap_obj", "SnapObj", spec["snapshot_objects"], "obj_type_id", "encode")
+    # obj_size
+    fn = "%s::snap_obj::obj_size" % crate
+    b = prog.bodies.get(fn)
+    who = "%s snap_obj::obj_size" % spec_name
+    if b is None:
+        rep.ob(rule, who, False, "no function " + fn)
+    else:
+        gotsz = switch_table(b)
+        bad = ["type %s: %s words (description: %s)" % (k_, gotsz.get(k_), v_) for k_, v_ in sorted(sizes.items()) if gotsz.get(k_) != v_]
+        bad += ["undescribed type %s: %s words" % (k_, gotsz[k_]) for k_ in gotsz if k_ not in sizes]
+        rep.ob(rule, who, not bad, "%d object sizes equal the number of described 32-bit words" % len(sizes) if not bad else "; ".join(bad)[:400], b.loc())
+    # ---- enums, flags, constants
+    for en in spec["game_enumerations"]:
+        tn = title(en["name"])
+        who = "%s enums::%s" % (spec_name, tn)
+        a = prog.adts.get("%s::enums::%s" % (crate, tn))
+        vals = {v["value"]: title(v["name"]) for v in en["values"]}
+        if a is None or a["kind"] != "Enum":
+            rep.ob(rule, who, False, "no enum %s::enums::%s" % (crate, tn))
+            continue
+        at = "%s:%s" % (a.get("file"), a.get("ln"))
+        discr = {signed(int(v["discr"]), "i32"): v["name"] for v in a["variants"]}
+        okd = discr == vals and a.get("size") == 4
+        rep.ob(rule, who + " | discriminants", okd, "%d variants with the described values, 4 bytes" % len(vals) if okd else "enum %s, description %s" % (discr, vals), at)
+        fb = prog.bodies.get("%s::enums::%s::from_i32" % (crate, tn))
+        if fb is None:
+            rep.ob(rule, who + " | from_i32", False, "no from_i32")
+        else:
+            gotn = enum_from_table(fb)
+            okf = gotn == vals
+            rep.ob(rule, who + " | from_i32", okf, "accepts exactly the %d described values and maps each to its variant" % len(vals) if okf
+                   else "from_i32 maps %s, description %s" % (gotn, vals), fb.loc())
+        tb = prog.bodies.get("%s::enums::%s::to_i32" % (crate, tn))
+        if tb is None:
+            rep.ob(rule, who + " | to_i32", False, "no to_i32")
+        else:
+            got = switch_table(tb)
+            gotn = {discr.get(k_): v_ for k_, v_ in got.items()}
+            okt = gotn == {n_: v_ for v_, n_ in vals.items()}
+            rep.ob(rule, who + " | to_i32", okt, "maps each variant to its described value" if okt else "to_i32 maps %s, description %s" % (gotn, vals), tb.loc())
+        for v in en["values"]:
+            c = prog.consts.get("%s::enums::%s_%s" % (crate, caps(en["name"]), caps(v["name"])))
+            if c is None or c.get("v") != v["value"]:
+                rep.ob(rule, who + " | const " + caps(v["name"]), False, "constant %s_%s is %s, described %s" % (caps(en["name"]), caps(v["name"]), c and c.get("v"), v["value"]))
+    def cfind(name):
+        for mod in ("enums", "snap_obj", "msg::game", "msg::system", "msg"):
+            c = prog.consts.get("%s::%s::%s" % (crate, mod, name))
+            if c is not None:
+                return c
+        return None
+
+    for fl in spec["game_flags"]:
+        bad = []
+        for v in fl["values"]:
+            c = cfind("%s_%s" % (caps(fl["name"]), caps(v["name"])))
+            # flags are 32-bit masks: bit 31 is negative as an i32 and 2^31 in the description
+            if c is None or not isinstance(c.get("v"), int) or (c["v"] & 0xffffffff) != (v["value"] & 0xffffffff):
+                bad.append("%s_%s is %s, described %s" % (caps(fl["name"]), caps(v["name"]), c and c.get("v"), v["value"]))
+        rep.ob(rule, "%s flags %s" % (spec_name, caps(fl["name"])), not bad, "%d flag bits as described" % len(fl["values"]) if not bad else "; ".join(bad)[:300])
+    bad = []
+    for cst in spec["constants"]:
+        c = cfind(caps(cst["name"]))
+        if cst["type"] == "int32":
+            have = c and c.get("v")
+        elif cst["type"] == "string":
+            have = c and bytes.fromhex(c.get("pbytes") or "").decode("utf-8", "replace")
+        else:
+            raise AnchorLost("description: constant of type %r" % cst["type"])
+        if c is None or have != cst["value"]:
+            bad.append("%s is %r, described %r" % (caps(cst["name"]), have, cst["value"]))
+    rep.ob(rule, "%s constants" % spec_name, not bad, "%d constants as described" % len(spec["constants"]) if not bad else "; ".join(bad)[:300])
+
+
+def switch_table(b):
+    """{switch value: constant stored on that arm} for a function that is one `match x { K => V, .. }`"""
+    ir = IR(b)
+    out = {}
+    sw = [bi for bi in sorted(b.live) if b.blocks[bi]["term"]["k"] == "switch"]
+    if len(sw) != 1:
+        return out
+    t = b.blocks[sw[0]]["term"]
+    for val, tgt in t.get("targets", []):
+        v = arm_constant(b, ir, tgt)
+        if v is not None:
+            out[signed(val, t.get("dty"))] = v
+    return out
+
+
+def arm_constant(b, ir, bi):
+    """the integer constant / field-less enum variant assigned in block bi (following gotos)"""
+    for _ in range(4):
+        for si, st in enumerate(b.blocks[bi]["st"]):
+            if st["k"] != "assign":
+                continue
+            r = st["r"]
+            if r["k"] == "use" and "c" in r["o"] and isinstance(r["o"]["c"].get("v"), int):
+                return r["o"]["c"]["v"]
+            if r["k"] == "agg" and r.get("ak") == "adt":
+                if not r.get("ops"):
+                    return ("variant", r.get("variant"))
+                o = r["ops"][0]
+                if "c" in o and isinstance(o["c"].get("v"), int):
+                    return o["c"]["v"]
+        t = b.blocks[bi]["term"]
+        if t["k"] == "goto":
+            bi = t["t"]
+        else:
+            break
+    return None
+
+
+def signed(v, dty):
+    bits = {"i8": 8, "i16": 16, "i32": 32, "i64": 64}.get(dty)
+    if bits and isinstance(v, int) and v >= 1 << (bits - 1):
+        return v - (1 << bits)
+    return v
+
+
+def enum_from_table(b):
+    """{accepted integer: variant index} of a from_i32"""
+    ir = IR(b)
+    out = {}
+    sw = [bi for bi in sorted(b.live) if b.blocks[bi]["term"]["k"] == "switch"]
+    if len(sw) != 1:
+        return out
+    t = b.blocks[sw[0]]["term"]
+    for val, tgt in t.get("targets", []):
+        v = arm_constant(b, ir, tgt)
+        if isinstance(v, tuple):
+            out[signed(val, t.get("dty"))] = v[1]
+    return out
+
+
+def arm_info(b):
+    """{variant index: (named constants used on the arm, callee of the arm's call)} for `match *self { V(..) => .. }`"""
+    sw = [bi for bi in sorted(b.live) if b.blocks[bi]["term"]["k"] == "switch"]
+    out = {}
+    if len(sw) != 1:
+        return out
+    t = b.blocks[sw[0]]["term"]
+    for val, tgt in t.get("targets", []):
+        names = []
+        callee = None
+        bi = tgt
+        for _ in range(3):
+            bl = b.blocks[bi]
+            for st in bl["st"]:
+                if st["k"] == "assign" and st["r"]["k"] == "use" and "c" in st["r"]["o"] and st["r"]["o"]["c"].get("name"):
+                    names.append(st["r"]["o"]["c"]["name"])
+            tt = bl["term"]
+            if tt["k"] == "call":
+                callee = tt.get("callee")
+                for a in tt.get("args", []):
+                    if "c" in a and a["c"].get("name"):
+                        names.append(a["c"]["name"])
+                break
+            if tt["k"] == "goto" and not names:
+                bi = tt["t"]
+                continue
+            break
+        out[val] = (names, callee)
+    return out
+
+
+def variant_tables(prog, rep, rule, spec_name, crate, mod, en, msgs, idfn, encfn):
+    """msg_id()/obj_type_id()/connless_id() return the id of the variant; encode_* calls the variant's encoder"""
+    a = prog.adts.get("%s::%s::%s" % (crate, mod, en))
+    who = "%s %s::%s" % (spec_name, mod.split("::")[-1], en)
+    if a is None:
+        rep.ob(rule, who + " | variants", False, "no enum %s::%s::%s" % (crate, mod, en))
+        return
+    at = "%s:%s" % (a.get("file"), a.get("ln"))
+    names = [v["name"] for v in a["variants"]]
+    wantn = [title(m["name"]) for m in msgs]
+    rep.ob(rule, who + " | variants", names == wantn, "one variant per described entry, in order (%d)" % len(names) if names == wantn
+           else "variants %s, described %s" % (names[:50], wantn[:50]), at)
+    if names != wantn:
+        return
+    fb = prog.bodies.get("%s::%s::%s::%s" % (crate, mod, en, idfn))
+    if fb is None:
+        rep.ob(rule, who + " | " + idfn, False, "no function %s" % idfn)
+    else:
+        arms = arm_info(fb)
+        bad = []
+        for vi, m in enumerate(msgs):
+            want = "%s::%s::%s" % (crate, mod, caps(m["name"]))
+            got = arms.get(vi, ([], None))[0]
+            if got != [want]:
+                bad.append("%s -> %s (expected %s)" % (names[vi], got, caps(m["name"])))
+        rep.ob(rule, who + " | " + idfn, not bad and len(arms) == len(msgs), "every variant reports its own id constant (%d)" % len(msgs) if not bad
+               else "; ".join(bad)[:400], fb.loc())
+    if encfn:
+        fb = prog.bodies.get("%s::%s::%s::%s" % (crate, mod, en, encfn))
+        if fb is None:
+            rep.ob(rule, who + " | " + encfn, False, "no function %s" % encfn)
+        else:
+            arms = arm_info(fb)
+            bad = []
+            for vi, m in enumerate(msgs):
+                want = struct_path(crate, mod, m)[0] + "::encode"
+                got = arms.get(vi, ([], None))[1]
+                if got != want:
+                    bad.append("%s -> %s (expected %s)" % (names[vi], got, want))
+            rep.ob(rule, who + " | " + encfn, not bad and len(arms) == len(msgs), "every variant is encoded by its own encoder (%d)" % len(msgs) if not bad
+                   else "; ".join(bad)[:400], fb.loc())
+
+
+def id_packing(prog, rep):
+    """R3: SystemOrGame::encode_id / decode_id are inverse on every described id (bit-provenance evaluation)"""
+    from ..bits import BitEval, Unsupported, src_bits, bit_str
+    rule = "R3-id-packing"
+    fn_d = GC + "msg::SystemOrGame::decode_id"
+    fn_e = GC + "msg::SystemOrGame::encode_id"
+    d = prog.one(fn_d)
+    en = prog.one(fn_e)
+    dir_, eir = IR(d), IR(en)
+    be = BitEval(prog)
+    # ---- encoder: the integer written first
+    wi = [(bi, t) for bi, t in en.calls() if (t.get("callee") or "") == PK + "Packer::write_int"]
+    wu = [(bi, t) for bi, t in en.calls() if (t.get("callee") or "") == PK + "Packer::write_uuid"]
+    if len(wi) != 1 or len(wu) != 1:
+        rep.ob(rule, "encode_id shape", False, "expected one write_int and one write_uuid, found %d / %d" % (len(wi), len(wu)), en.loc())
+        return
+    warg = eir.call_expr(wi[0][0], wi[0][1])[2][1]
+
+    def leaf_e(e):
+        e2 = peel(e)
+        if e2[0] == "var" and e2[2] == "iid":
+            return src_bits("id", 32)
+        if e2[0] == "call" and e2[1].endswith("SystemOrGame::is_system"):
+            return src_bits("sys", 1)
+        return None
+    try:
+        v = be.eval(warg, {"leaf": leaf_e}, eir)
+    except Unsupported as ex:
+        rep.ob(rule, "encode_id value", False, "cannot evaluate the written integer %s: %s" % (show(strip_sites(warg)), ex), en.loc())
+        return
+    want = [("s", "sys", 0)] + [("s", "id", k) for k in range(31)]
+    rep.ob(rule, "encode_id value", v == want, "written integer = (id << 1) | system: bit 0 is the system flag, bits 1..31 are id bits 0..30"
+           if v == want else "written bits: %s" % [bit_str(b) for b in v], en.loc())
+    # asserted: id bit 31 clear, ordinal ids non-zero; uuid written after the int and only for Uuid ids
+    conds = [(show(strip_sites(c)), rel, val) for c, rel, val, edge, dty in eir.edge_conditions(wi[0][0])]
+    top = any(s_ == "Eq(BitAnd(iid, Shl(1, 31)), 0)" and truth_of(r_, v_) for s_, r_, v_ in conds) or \
+        any("BitAnd(iid, " in s_ and truth_of(r_, v_) for s_, r_, v_ in conds)
+    rep.ob(rule, "encode_id range assert", top, "ids with bit 31 set are refused (the shift would lose it)" if top else "conditions before the write: %s" % conds, en.loc())
+    uconds = [(show(strip_sites(c)), rel, val) for c, rel, val, edge, dty in eir.edge_conditions(wu[0][0])]
+    uok = en.dominates(wi[0][0], wu[0][0]) and any(s_.startswith("discr(") and r_ == "==" for s_, r_, v_ in uconds)
+    rep.ob(rule, "encode_id uuid", uok, "the 16 UUID bytes follow the integer, only for Uuid ids" if uok else "conditions: %s" % uconds, en.loc())
+    # ---- decoder
+    ordb = uub = sysb = gameb = None
+    for bi in sorted(d.live):
+        for si, st in enumerate(d.blocks[bi]["st"]):
+            if st["k"] == "assign" and st["r"]["k"] == "agg":
+                nm = (st["r"].get("adt") or "").split("::")[-1] + "::" + str(st["r"].get("variant"))
+                if nm == "MessageId::Ordinal":
+                    ordb = (bi, si, st)
+                elif nm == "MessageId::Uuid":
+                    uub = (bi, si, st)
+                elif nm == "SystemOrGame::System":
+                    sysb = (bi, si, st)
+                elif nm == "SystemOrGame::Game":
+                    gameb = (bi, si, st)
+    if not (ordb and uub and sysb and gameb):
+        rep.ob(rule, "decode_id shape", False, "the four constructions (Ordinal, Uuid, System, Game) were not found", d.loc())
+        return
+
+    def leaf_d(e):
+        e2 = peel(e)
+        if e2[0] == "unwrapped":
+            x = peel(e2[1])
+            if x[0] == "call" and x[1] == PK + "Unpacker::read_int":
+                return list(v)      # the decoder reads what the encoder wrote
+        return None
+    oe = dir_.rvalue(ordb[2]["r"], (ordb[0], ordb[1]))[4][0][1]
+    try:
+        ov = be.eval(oe, {"leaf": leaf_d}, dir_)
+    except Unsupported as ex:
+        rep.ob(rule, "decode_id ordinal", False, "cannot evaluate %s: %s" % (show(strip_sites(oe)), ex), d.loc())
+        return
+    # with id bits 30 and 31 clear (every described id; bit 31 is asserted by the encoder)
+    idw = [("s", "id", k) for k in range(30)] + [0, 0]
+    ovz = [0 if b in (("s", "id", 30), ("s", "id", 31)) else b for b in ov]
+    rep.ob(rule, "decode_id ordinal", ovz == idw, "decode(encode(id)) = id for every id below 2^30 (id >> 1 of the written integer)"
+           if ovz == idw else "decoded bits: %s" % [bit_str(b) for b in ov], d.loc())
+    # branch conditions
+    oc = [(c, rel, val) for c, rel, val, edge, dty in dir_.edge_conditions(ordb[0])]
+    uc = [(c, rel, val) for c, rel, val, edge, dty in dir_.edge_conditions(uub[0])]
+    sc = [(c, rel, val) for c, rel, val, edge, dty in dir_.edge_conditions(sysb[0])]
+    gc = [(c, rel, val) for c, rel, val, edge, dty in dir_.edge_conditions(gameb[0])]
+
+    def cond_bits(conds):
+        """[(bits of the tested expression, compared-with, truth)] for Ne/Eq(x, 0) conditions"""
+        out = []
+        for c, rel, val in conds:
+            t = truth_of(rel, val)
+            if t is None or c[0] != "bin" or c[1] not in ("Ne", "Eq") or cint(c[3]) != 0:
+                continue
+            try:
+                bv = be.eval(c[2], {"leaf": leaf_d}, dir_)
+            except Unsupported:
+                continue
+            nonzero = t if c[1] == "Ne" else not t
+            # only ids below 2^30 are described (and bit 31 is refused by the encoder)
+            bv = [0 if b in (("s", "id", 30), ("s", "id", 31)) else b for b in bv]
+            out.append((bv, nonzero))
+        return out
+    ob_ = cond_bits(oc)
+    ub_ = cond_bits(uc)
+    idsh = [("s", "id", k) for k in range(30)] + [0, 0]
+    okb = any(bv == idsh and nz for bv, nz in ob_) and any(bv == idsh and not nz for bv, nz in ub_)
+    rep.ob(rule, "decode_id ordinal/uuid split", okb, "Ordinal exactly when (integer >> 1) != 0, otherwise a UUID follows"
+           if okb else "conditions: %s / %s" % ([show(strip_sites(c)) for c, r, v_ in oc], [show(strip_sites(c)) for c, r, v_ in uc]), d.loc())
+    ue = peel(dir_.rvalue(uub[2]["r"], (uub[0], uub[1]))[4][0][1])
+    uok = ue[0] == "unwrapped" and peel(ue[1])[0] == "call" and peel(ue[1])[1] == PK + "Unpacker::read_uuid"
+    rep.ob(rule, "decode_id uuid", uok, "the UUID is read with read_uuid (16 raw bytes)" if uok else show(strip_sites(ue)), d.loc())
+    sb_ = cond_bits(sc)
+    gb_ = cond_bits(gc)
+    sysw = [("s", "sys", 0)] + [0] * 31
+    oks = any(bv == sysw and nz for bv, nz in sb_) and any(bv == sysw and not nz for bv, nz in gb_)
+    rep.ob(rule, "decode_id system flag", oks, "System exactly when bit 0 of the integer is set, and that bit is the encoder's system flag"
+           if oks else "conditions: %s / %s" % ([show(strip_sites(c)) for c, r, v_ in sc], [show(strip_sites(c)) for c, r, v_ in gc]), d.loc())
+    # is_system / internal_id helpers
+    isg = prog.one(GC + "msg::SystemOrGame::is_game")
+    tab = switch_table(isg)
+    rep.ob(rule, "is_game", tab == {0: 0, 1: 1}, "System -> false, Game -> true" if tab == {0: 0, 1: 1} else str(tab), isg.loc())
+    # every described ordinal id is in [1, 2^30)
+    bad = []
+    cnt = 0
+    for spec_name, crate in SPECS:
+        spec, path = load_spec(spec_name)
+        for sec in ("system_messages", "game_messages"):
+            for m in spec[sec]:
+                if isinstance(m["id"], int):
+                    cnt += 1
+                    if not (1 <= m["id"] < (1 << 30)):
+                        bad.append("%s %s id %s" % (spec_name, "_".join(m["name"]), m["id"]))
+    rep.ob(rule, "described ids in range", not bad, "%d described ordinal message ids are in [1, 2^30)" % cnt if not bad else "; ".join(bad))
